@@ -1,7 +1,7 @@
 /-
 E2 — what a timeout scan leaves behind: helper lemmas for `C01.scan_releases_all_due`.
 -/
-import Nsq.Proofs.ChanInv
+import Nsq.Proofs.ChanHist
 namespace Nsq.Proofs.Chan
 open Nsq.Model.Chan
 
@@ -36,6 +36,50 @@ theorem timeoutOne_inflight {c : Chan} (hi : Inv 0 c) (x : Nat) :
       cases hl : e.loc <;> simp_all [isInflight]
   · rename_i hf
     exact ⟨he, findE_none hf e he⟩
+
+
+theorem fannedIds_nodup {h : List Ev} (hok : okHist h = true) : (fannedIds h).Nodup := by
+  induction h with
+  | nil => simp [fannedIds]
+  | cons ev h ih =>
+    have hok' := hok
+    simp only [okHist, Bool.and_eq_true] at hok
+    cases ev <;> simp only [fannedIds] <;> try exact ih hok.2
+    case fanout i d =>
+      simp only [List.nodup_cons]
+      refine ⟨?_, ih hok.2⟩
+      have := hok.1
+      simp only [okEv, beq_iff_eq] at this
+      rw [mem_fannedIds]
+      have hz := (status_none_iff hok.2).1 this
+      omega
+
+
+theorem findE_of_mem {l : List Entry} (hn : (l.map (·.id)).Nodup) {e : Entry} (he : e ∈ l) : findE l e.id = some e := by
+  cases hf : findE l e.id with
+  | none => exact absurd rfl (findE_none hf e he)
+  | some e' =>
+    obtain ⟨he', hid⟩ := findE_some hf
+    rw [eq_of_id_eq hn he' he hid]
+
+
+theorem mem_insertByPri {e x : Entry} {l : List Entry} : x ∈ insertByPri e l ↔ x = e ∨ x ∈ l := by
+  induction l with
+  | nil => simp [insertByPri]
+  | cons y l ih =>
+    simp only [insertByPri]
+    split
+    · simp
+    · simp only [List.mem_cons, ih]
+      constructor
+      · rintro (h | h | h) <;> simp [h]
+      · rintro (h | h | h) <;> simp [h]
+
+theorem mem_sortByPri {x : Entry} {l : List Entry} : x ∈ sortByPri l ↔ x ∈ l := by
+  unfold sortByPri
+  induction l with
+  | nil => simp
+  | cons y l ih => simp only [List.foldr_cons, mem_insertByPri, ih, List.mem_cons]
 
 
 end Nsq.Proofs.Chan
